@@ -288,7 +288,18 @@ func runC09(c *core.Ctx) {
 	}
 	// ---------------- R2
 	li := core.ComputeLocks(p)
-	lockBalance(c, li, "R6", funcsOfType(p, p.Worker, "DefaultWorkerPool"))
+	// every function of the worker package: the pool's methods, and whatever private types its goroutines were moved into
+	var wfns []*ssa.Function
+	for _, f := range p.Funcs {
+		root := f
+		for root.Parent() != nil {
+			root = root.Parent()
+		}
+		if root.Pkg == p.Worker {
+			wfns = append(wfns, f)
+		}
+	}
+	lockBalance(c, li, "R6", wfns)
 	{
 		nInc := 0
 		for _, f := range p.Funcs {
